@@ -833,7 +833,10 @@ func (e *Engine) MessageReceived(ctx context.Context, p peer.ID, m bsmsg.BitSwap
 
 		// Check if this is a want-block or a have-block that can be converted
 		// to a want-block.
-		isWantBlock := blockSize != 0 && e.sendAsBlock(entry.WantType, blockSize)
+		// A want-have whose size was not looked up (replacing disabled, see
+		// hasBlocks above) is always answered with HAVE. Note that a stored
+		// block may be empty: size 0 does not mean "unknown".
+		isWantBlock := !(noReplace && entry.WantType == pb.Message_Wantlist_Have) && e.sendAsBlock(entry.WantType, blockSize)
 
 		log.Debugw("Bitswap engine: block found", "local", e.self, "from", p, "cid", c, "isWantBlock", isWantBlock)
 
